@@ -66,23 +66,27 @@ Section Run.
                      else let '(a, b) := split_colon t in (String ch a, b)
     end.
 
+  Definition ends_with (suf s : string) : bool :=
+    Nat.leb (String.length suf) (String.length s)
+    && String.eqb (substring (String.length s - String.length suf) (String.length suf) s) suf.
+
+  (* net/http (NewRequest: removeEmptyPort): "host:" goes on the wire as "host" *)
+  Definition wire_host (h : string) : string :=
+    if ends_with ":" h then substring 0 (String.length h - 1) h else h.
+
   Definition project (x : string * gres) : option obs :=
     match snd x with
     | GErr => None
     | GReq a =>
         match t_parse (fst x) with
         | None => None
-        | Some u => Some (mkObs (u_scheme u) (u_host u) (u_path u)
+        | Some u => Some (mkObs (u_scheme u) (wire_host (u_host u)) (u_path u)
                             (match a with
                              | Some (Cred us pw _) => Some (us, pw)
                              | None => option_map split_colon (u_user u)
                              end))
         end
     end.
-
-  Definition ends_with (suf s : string) : bool :=
-    Nat.leb (String.length suf) (String.length s)
-    && String.eqb (substring (String.length s - String.length suf) (String.length suf) s) suf.
 
   (* Manager.Update also refreshes every repository index concurrently (UpdateRepositories);
      those requests are covered by PIndex and are left out of the manager comparison *)
